@@ -19,6 +19,8 @@ n=$start
 while [ -f $dir/$(printf 'a%04d' $n).diff ]; do
   name=$(printf 'a%04d' $n); n=$((n+step))
   grep -q "^$name	" $out 2>/dev/null && continue
+  # AUTOMUT_ONLY=<file>: restrict the run to the mutants named in that file (re-run of earlier survivors)
+  if [ -n "${AUTOMUT_ONLY:-}" ] && ! grep -qx "$name" "$AUTOMUT_ONLY"; then continue; fi
   git -C $L/repo checkout -- . ; git -C $L/repo clean -fdq src
   if ! git -C $L/repo apply $dir/$name.diff 2>/dev/null; then printf '%s\tPATCH-CONFLICT\n' $name >> $out; continue; fi
   t=$(cd $L/repo && timeout 900 cargo test --offline --lib 2>&1 | tail -5)
